@@ -468,13 +468,33 @@ func findSaveDump(c *Ctx, id string, fn *ssa.Function) *saveDump {
 	state := unwrap(sd.invoke.Common().Args[0])
 	// the dump map is a MakeMap, possibly held in a cell captured by the Range callback
 	mm := resolveCell(state)
+	home := fn // the function the dump is built in: Save itself, or a helper of the checkpoint that returns it
+	var homeCall *ssa.Call
 	if _, ok := mm.(*ssa.MakeMap); !ok {
-		c.Fail(id, "dump@"+fname(fn), sd.invoke.Pos(), "argument 0 of Metadata.Save is not a map built in this function: %s", w.Origin(state))
+		if call, isCall := mm.(*ssa.Call); isCall {
+			if h := call.Common().StaticCallee(); h != nil && w.inModule(h) && h.Pkg == fn.Pkg && len(h.Blocks) > 0 {
+				var built ssa.Value
+				nRet := 0
+				allInstrs(h, func(in ssa.Instruction) {
+					if r, isR := in.(*ssa.Return); isR && len(r.Results) == 1 {
+						nRet++
+						built = resolveCell(r.Results[0])
+					}
+				})
+				if _, isMM := built.(*ssa.MakeMap); isMM && nRet == 1 {
+					mm, home, homeCall = built, h, call
+					c.see(h)
+				}
+			}
+		}
+	}
+	if _, ok := mm.(*ssa.MakeMap); !ok {
+		c.Fail(id, "dump@"+fname(fn), sd.invoke.Pos(), "argument 0 of Metadata.Save is not a map built in this function (or in a helper that returns a fresh map): %s", w.Origin(state))
 		return nil
 	}
-	// find map updates on that map in fn and its anonymous functions
+	// find map updates on that map in the home function and its anonymous functions
 	var updates []*ssa.MapUpdate
-	for _, f := range withAnon(fn) {
+	for _, f := range withAnon(home) {
 		allInstrs(f, func(in ssa.Instruction) {
 			if mu, ok := in.(*ssa.MapUpdate); ok && resolveCell(mu.Map) == mm {
 				updates = append(updates, mu)
@@ -489,10 +509,18 @@ func findSaveDump(c *Ctx, id string, fn *ssa.Function) *saveDump {
 	sd.closure = updates[0].Parent()
 	// the closure must be the argument of Range on GetOffsets()#0
 	ok := false
-	allInstrs(fn, func(in ssa.Instruction) {
+	allInstrs(home, func(in ssa.Instruction) {
 		cc := callOf(in)
 		if m, recv := csmapMethod(cc); m == "Range" && len(cc.Args) == 2 && closureOf(cc.Args[1]) == sd.closure {
 			sd.rangeRcv = recv
+			// in a helper the ranged map is a parameter: what Save passes for it
+			if p, isP := unwrap(recv).(*ssa.Parameter); isP && homeCall != nil {
+				for i, hp := range home.Params {
+					if hp == p && i < len(homeCall.Common().Args) {
+						sd.rangeRcv = homeCall.Common().Args[i]
+					}
+				}
+			}
 			ok = true
 		}
 	})
